@@ -468,6 +468,7 @@ def rule_q5(src, rep, counts):
         inp.fields.update({"wakeup_read_fd": wake, "wakeup_write_fd": 10 if wake else None})
         inp.fields["readers"].extend([11, 12])
         del seen[:]
+        mark = it.checkpoint()
         try:
             r1 = fold._inline(w, [0.25], {}, self_obj=inp)
             inp.fields["readers"].append(13)
@@ -482,6 +483,9 @@ def rule_q5(src, rep, counts):
             raise AnalysisError("the wait needs state that only __enter__ sets up and that this model does not know")
         base = [7] + ([wake] if wake else [])
         want = [(sorted(base + [11, 12]), 0.25), (sorted(base + [11, 12, 13]), None)]
+        if not (seen == want and r1 == (False, None) and r2 == (False, None)) and it.dirty(mark):
+            fold.overrides.pop("input", None)
+            raise AnalysisError("_wait_for_read_ready_or_timeout: %s" % it.dirty(mark))
         rep.ob("Q5-select-reads", w.where(sel[0]), w.scope, "wake-up fd %s: select watched %s" % (wake, seen), seen == want and r1 == (False, None) and r2 == (False, None),
                "at every wait select must watch the input stream, the signal wake-up pipe when set, and every CURRENTLY registered "
                "trigger pipe, with the caller's timeout; expected %s, observed %s (results %s, %s): a blocked request is not woken by what is missing"
@@ -579,13 +583,15 @@ def _byte_split_gen(e, src_name=None):
 
 
 def rule_q8(src, rep, counts):
-    """_nonblocking_read is abstractly interpreted with os.read stubbed: every byte read is appended, one element per byte,
-    in order, after what is already buffered; the count returned is the number of bytes; nothing is buffered when the
-    read would block or returns nothing.  (unget_bytes is covered by K7's Q8-unget rule.)"""
-    from ..objinterp import Obj, NativeFunc, ObjInterp
-    from ..absint import FoldedRaise
-    from ..consteval import Record, Unknown
-    it = ObjInterp(src)
+    """_nonblocking_read is abstractly interpreted against the reference OS model: every byte read is appended, one element per
+    byte, in order, after what is already buffered; the count returned is the number of bytes; nothing is buffered when the read
+    would block or returns nothing; the read is os.read(stdin, READ_SIZE) made while the stream is non-blocking, and the flags
+    are as before afterwards.  (unget_bytes is covered by K7's Q8-unget rule.)"""
+    from .. import osmodel
+    from ..fold import new_interp
+    from ..objinterp import NativeFunc
+    from ..consteval import Record
+    it = new_interp(src)
     fold = it.folder
     f = src.func("input", "Input._nonblocking_read")
     read_size = fold.const("input", "READ_SIZE", int)
@@ -594,44 +600,39 @@ def rule_q8(src, rep, counts):
             ("3 bytes", b"ab\xc3", [b"x", b"a", b"b", b"\xc3"], 3),
             ("1 byte", b"\x1b", [b"x", b"\x1b"], 1),
             ("nothing (EOF / dsusp)", b"", [b"x"], 0),
-            ("would block", "BlockingIOError", [b"x"], 0)):
-        calls = []
-
-        def os_read(args, kw, behaviour=behaviour):
-            calls.append(tuple(args))
-            if isinstance(behaviour, str):
-                raise FoldedRaise(behaviour, "os.read")
-            return behaviour
-        fold.overrides["input"] = {"os": Record(read=NativeFunc(os_read), O_NONBLOCK=2048)}
-        inp = Obj("input", "Input")
-        inp.fields.update({"unprocessed_bytes": [b"x"], "in_stream": Record(fileno=NativeFunc(lambda a, k: 7))})
-        try:
-            r = ("ok", fold._inline(f, [], {}, self_obj=inp))
-        except FoldedRaise as e:
-            r = ("raise", e.name)
-        except Unknown as e:
-            raise AnalysisError("_nonblocking_read outside the evaluated subset: %s" % e)
-        finally:
-            fold.overrides.pop("input", None)
+            ("would block", None, [b"x"], 0)):
+        fold.overrides.clear()
+        osm = osmodel.OS()
+        osmodel.install(it, osm)
+        if behaviour is not None:
+            osm.data[0] = [behaviour]
+        inp = it.new("input", "Input", in_stream=Record(fileno=NativeFunc(lambda a, k: 0), name="<stdin>"))
+        inp.fields["unprocessed_bytes"] = [b"x"]
+        log = it.__dict__.setdefault("effect_log", [])
+        del log[:]
+        forks = getattr(it, "forks", 0)
+        r = it.callm(inp, "_nonblocking_read")
+        if r[0] == "opaque":
+            raise AnalysisError("_nonblocking_read outside the evaluated subset: %s" % r[1])
+        skipped = [t for k, t in log if not t.startswith(("logger.", "logging."))]
+        if skipped or getattr(it, "forks", 0) != forks:
+            raise AnalysisError("_nonblocking_read: statement outside the evaluated subset: `%s`" % (skipped[0] if skipped else "unknown condition"))
         n += 1
         got = inp.fields["unprocessed_bytes"]
         ok = r == ("ok", want_ret) and got == want_buf
         rep.ob("Q8-read-bytes-enter-buffer-in-order", f.where(), f.scope, "os.read gives %s" % label, ok,
                "after the read the buffer must be %s and the count returned %s; got buffer %s and %s" % (want_buf, want_ret, got, r))
         rep.case(True)
-        if calls:
-            ok = calls[0] == (7, read_size)
-            rep.ob("Q8-reads-from-the-input-stream", f.where(), f.scope, "os.read%s" % (calls[0],), ok,
+        if osm.read_args:
+            ok = osm.read_args[:1] == [(0, read_size)]
+            rep.ob("Q8-reads-from-the-input-stream", f.where(), f.scope, "os.read%s" % (osm.read_args[0],), ok,
                    "the read must be os.read(self.in_stream.fileno(), READ_SIZE)")
+            rep.ob("Q8-read-inside-nonblocking-context", f.where(), f.scope, "flags during / after the read (os.read gives %s)" % label,
+                   bool(osm.flags_at_read[0] & osmodel.O_NONBLOCK) and osm.flags[0] == 2,
+                   "during the read the stream's flags were %s, afterwards %#x: the read must run with O_NONBLOCK set (a blocked stream "
+                   "cannot stall a request) and leave the flags as they were" % ([hex(x) for x in osm.flags_at_read], osm.flags[0]))
+    fold.overrides.clear()
     counts["buffer_fill_sites"] = n + 1
-    # the read happens inside `with Nonblocking(self.in_stream)` (C12 checks that this restores the flags)
-    withs = [w for w in f.own_nodes() if isinstance(w, ast.With)]
-    ok = any(unparse(i.context_expr).startswith("Nonblocking(") for w in withs for i in w.items) and \
-        all(f.module.enclosing(c, (ast.With,)) is not None for c in f.own_nodes()
-            if isinstance(c, ast.Call) and src.canon(c.func, f.module) == "os.read")
-    rep.ob("Q8-read-inside-nonblocking-context", f.where(), f.scope, "with Nonblocking(self.in_stream): os.read(...)", ok,
-           "the read must run inside the Nonblocking context manager so that a blocked stream cannot stall a request and the "
-           "stream's flags are restored afterwards")
 
 
 def rule_k7(src, rep, counts):
@@ -653,6 +654,7 @@ def rule_k7(src, rep, counts):
         inp = Obj("input", "Input")
         inp.fields.update({"unprocessed_bytes": [bytes([b]) for b in buf], "keynames": km.modes[mode], "paste_threshold": None,
                            "sigints": [], "queued_events": [], "queued_interrupting_events": [], "queued_scheduled_events": [], "readers": []})
+        mark = it.checkpoint()
         try:
             if kf.outer is not None:
                 env = dict(fold.module("input"))
@@ -665,6 +667,8 @@ def rule_k7(src, rep, counts):
             res = ("raise", e.name)
         except Unknown as e:
             raise AnalysisError("key finder %s outside the evaluated subset: %s" % (kf.qualname, e))
+        if it.dirty(mark):
+            raise AnalysisError("key finder %s: %s" % (kf.qualname, it.dirty(mark)))
         return res, b"".join(inp.fields["unprocessed_bytes"])
 
     def reference(buf, enc):
